@@ -81,7 +81,7 @@ Proof.
       destruct r3 as [|d r4]; [now apply Hpush|]. destruct (Ascii.eqb d c_dash); [discriminate | now apply Hpush].
     - destruct (Ascii.eqb o c_dash) eqn:Hd; [|discriminate]. apply eqb_char in Hd. subst o.
       destruct r2 as [|e r3]; [now apply Hpush|].
-      destruct (Ascii.eqb e c_space); [now apply Hpush|].
+      destruct (dd_end e); [now apply Hpush|].
       destruct (isOkLongOpt e true) eqn:He; [|discriminate].
       pose proof (span_forallb (fun x => isOkLongOpt x false) r3) as Hsp.
       destruct (span (fun x => isOkLongOpt x false) r3) as [name r4]. cbn [fst] in Hsp.
